@@ -17,8 +17,27 @@ BOUNDARY = [0, 1, -1, 2, -2, 3, 7, 10, -10, 255, 256, 65535, 65536,
             65537, 2147483629, 2147483587]
 
 
+def fbits(x):
+    import struct
+    if x != x:
+        return "F7ff8000000000000"
+    return "F%016x" % struct.unpack(">Q", struct.pack(">d", x))[0]
+
+
+def to_double(x):
+    """The double nearest to an exact rational (round to nearest even); doubles are returned unchanged."""
+    if isinstance(x, float):
+        return x
+    try:
+        return x.numerator / x.denominator        # int / int true division is correctly rounded
+    except OverflowError:
+        return float("inf") if x > 0 else float("-inf")
+
+
 def canon_rep(q):
-    """Canonical representation tag of an exact rational, computed independently of the model."""
+    """Canonical representation tag of a number, computed independently of the model."""
+    if isinstance(q, float):
+        return fbits(q)
     n, d = q.numerator, q.denominator
     if d == 1:
         return ("I%d" % n) if ISZ_MIN <= n <= ISZ_MAX else ("B%d" % n)
@@ -42,11 +61,28 @@ def coq_num(q):
 
 
 def lit(q):
+    if isinstance(q, float):
+        if q != q:
+            return "+nan.0"
+        if q in (float("inf"), float("-inf")):
+            return "+inf.0" if q > 0 else "-inf.0"
+        import math
+        if q == 0.0 and math.copysign(1.0, q) < 0:
+            return "(- 0.0)"      # the LITERAL -0.0 reads as 0.0 (known finding C10-F34): build negative zero instead
+        r = repr(q)
+        return r if ("." in r or "e" in r or "n" in r) else r + ".0"
     n, d = q.numerator, q.denominator
     return str(n) if d == 1 else "%d/%d" % (n, d)
 
 
-def gen_operand(rng):
+FLOATS = [0.0, -0.0, 1.0, -1.0, 0.5, 1.5, -2.5, 3.0, 7.0, 49.0, 0.1, 1e-7, 5e-324, 2.2250738585072014e-308,
+          9007199254740992.0, 9007199254740994.0, 4503599627370497.5, 1e23, 1.7976931348623157e308, 1e308,
+          float("inf"), float("-inf"), float("nan"), 2147483648.0, 9.223372036854775807e18, 1.8446744073709552e19]
+
+
+def gen_operand(rng, allow_float=False):
+    if allow_float and rng.random() < 0.3:
+        return rng.choice(FLOATS) if rng.random() < 0.7 else rng.uniform(-1e6, 1e6)
     k = rng.random()
     if k < 0.45:
         return Fraction(rng.choice(BOUNDARY) + rng.choice([0, 0, 0, 1, -1]))
@@ -100,9 +136,88 @@ def trunc_div(a, b):
     return q if (a >= 0) == (b >= 0) else -q
 
 
+def float_expected(op, xs):
+    """Oracle for operations with an inexact operand: IEEE double arithmetic on the operands converted to
+    the nearest double; comparisons by exact value.  Only unary/binary shapes (association order of the
+    variadic forms is not fixed by the property)."""
+    import math
+    if op in ("=", "<"):
+        a, b = xs
+        for v in (a, b):
+            if isinstance(v, float) and v != v:
+                return "#f"
+        def ex(v):
+            if isinstance(v, float):
+                if v in (float("inf"), float("-inf")):
+                    return v
+                return Fraction(v)
+            return v
+        a, b = ex(a), ex(b)
+        return "#t" if (a == b if op == "=" else a < b) else "#f"
+    d = [to_double(v) for v in xs]
+    if op == "abs":
+        return fbits(abs(d[0]))
+    if op == "+":
+        return fbits(d[0] + d[1]) if len(d) == 2 else fbits(d[0])
+    if op == "*":
+        return fbits(d[0] * d[1]) if len(d) == 2 else fbits(d[0])
+    if op == "-":
+        return fbits(d[0] - d[1]) if len(d) == 2 else fbits(-d[0])
+    if op == "/":
+        if len(d) == 1:
+            num, den, exact_den = 1.0, d[0], xs[0]
+        else:
+            num, den, exact_den = d[0], d[1], xs[1]
+        if not isinstance(exact_den, float) and exact_den == 0:
+            return "E:divzero"
+        if den == 0.0:
+            if num != num or num == 0.0:
+                return fbits(float("nan"))
+            neg = (math.copysign(1.0, num) < 0) != (math.copysign(1.0, den) < 0)
+            return fbits(float("-inf") if neg else float("inf"))
+        return fbits(num / den)
+    return None
+
+
+def minus_exact_zero_sign(case, params):
+    """Known-finding class C10-F36: (- x 0) with x = -0.0 and an EXACT zero subtrahend loses the sign of zero."""
+    ops = case.get("operands_py", [])
+    return (case.get("op") == "-" and len(ops) == 2 and ops[0] == ["f", (-0.0).hex()] and ops[1] == ["q", "0"])
+
+
+def negative_zero_literal(case, params):
+    """Known-finding class C10-F34: the source literal -0.0 evaluates to 0.0 (string->number and arithmetic keep the sign)."""
+    return case.get("op") == "literal" and case.get("args") == ["-0.0"]
+
+
+def lossy_exact_float_comparison(case, params):
+    """Known-finding class C10-F33: `=` / `<` between an exact number and a finite double where the exact
+    operand is not representable as a double (the engine converts the exact operand to a double first:
+    rvals.rs number_equality / PartialOrd, acknowledged by a TODO in the source)."""
+    if case.get("op") not in ("=", "<"):
+        return False
+    vals = case.get("operands_py", [])
+    if len(vals) != 2:
+        return False
+    fl = [v for v in vals if v[0] == "f"]
+    ex = [v for v in vals if v[0] == "q"]
+    if len(fl) != 1 or len(ex) != 1:
+        return False
+    f = float.fromhex(fl[0][1])
+    if f != f or f in (float("inf"), float("-inf")):
+        return False
+    q = Fraction(ex[0][1])
+    try:
+        return Fraction(to_double(q)) != q
+    except (OverflowError, ValueError):
+        return True
+
+
 def expected_str(op, xs):
     """Exact oracle (python ints / Fractions) rendered in the canonical form of the harness."""
     import math
+    if any(isinstance(x, float) for x in xs):
+        return float_expected(op, xs) if len(xs) <= 2 else None
     if op in INT_OPS:
         if any(x.denominator != 1 for x in xs):
             return "E:TypeMismatch"
@@ -142,6 +257,8 @@ def expected_str(op, xs):
 
 
 def model_expr(op, xs):
+    if any(isinstance(x, float) for x in xs):
+        return None                   # doubles are outside the Coq model (oracle only)
     args = "[" + "; ".join(coq_num(x) for x in xs) + "]"
     if op == "+":
         return "render (add_n %s)" % args
@@ -226,7 +343,8 @@ def gen_cases(ck, n):
             k = 2
         else:
             k = rng.choice([1, 2, 2, 2, 3, 4])
-        xs = [gen_operand(rng) for _ in range(k)]
+        fl = op in ("+", "-", "*", "/", "abs", "=", "<") and k <= 2 and rng.random() < 0.35
+        xs = [gen_operand(rng, allow_float=fl) for _ in range(k)]
         if op in INT_OPS or op == "exact-integer-sqrt":
             # integers most of the time; a rational now and then for the type error
             xs = [x if rng.random() < 0.06 else Fraction(x.numerator) for x in xs]
@@ -264,6 +382,55 @@ CORPUS = [
 ]
 
 
+# every pair from this set is evaluated on every run (quick tier included) for every binary operation:
+# the representation boundaries of the tower meet exactly at these magnitudes
+SWEEP = [0, 1, -1, 3, -7, 2**31 - 1, 2**31, -2**31, -2**31 - 1, 2**62, 2**63 - 1, 2**63, -2**63, -2**63 - 1,
+         2**64, 10**30, -10**30]
+SWEEP_RATS = [Fraction(1, 2), Fraction(-2**31 + 1, 3), Fraction(-2**31, 3), Fraction(2**31 - 1, 2**31 - 2),
+              Fraction(1, 2**31), Fraction(7, 2**63), Fraction(-3, 10**20)]
+SWEEP_OPS = ["+", "-", "*", "/", "=", "<", "quotient", "remainder", "modulo", "gcd", "lcm"]
+
+
+def sweep_cases():
+    out = []
+    for op in SWEEP_OPS:
+        for a in SWEEP:
+            for b in SWEEP:
+                out.append((op, [Fraction(a), Fraction(b)]))
+    for op in ["+", "-", "*", "/", "=", "<"]:
+        for a in SWEEP_RATS:
+            for b in SWEEP_RATS + [Fraction(x) for x in (0, 1, -1, 2**31, -2**31, 2**63, -2**63)]:
+                out.append((op, [a, b]))
+                out.append((op, [b, a]))
+    fl = [0.0, -0.0, 1.0, 3.0, 49.0, 0.1, 9007199254740992.0, 1e23, 1.8446744073709552e19, 9.223372036854775807e18,
+          float("inf"), float("nan"), 5e-324]
+    ex = [Fraction(x) for x in (0, 1, 3, 49, 2**53 + 1, 2**63, -2**63, 10**23, 10**23 + 1, 10**30)] + \
+         [Fraction(1, 3), Fraction(-2**31 + 1, 3), Fraction(1, 10)]
+    for op in ["+", "-", "*", "/", "=", "<"]:
+        for a in fl:
+            for b in fl[:7]:
+                out.append((op, [a, b]))
+            for b in ex:
+                out.append((op, [a, b]))
+                out.append((op, [b, a]))
+    for a in fl:
+        out.append(("abs", [a]))
+        out.append(("-", [a]))
+        out.append(("/", [a]))
+    for a in SWEEP + SWEEP_RATS:
+        out.append(("abs", [Fraction(a)]))
+        out.append(("-", [Fraction(a)]))
+        out.append(("/", [Fraction(a)]))
+        out.append(("number->string", [Fraction(a)]))
+        out.append(("string->number", [Fraction(a)]))
+        if Fraction(a).denominator == 1:
+            out.append(("exact-integer-sqrt", [Fraction(a)]))
+        for e in (0, 1, 2, 3, 63, 64, -1, -2, -3):
+            if abs(Fraction(a)) < 2**70:
+                out.append(("expt", [Fraction(a), Fraction(e)]))
+    return out
+
+
 def run(ck):
     ck.cov["trusted_base"] = [
         "Coq 8.16.1 kernel, coqc; vm_compute for model evaluation (no native_compute)",
@@ -281,13 +448,17 @@ def run(ck):
 
     # ---- correspondence: model vs implementation vs exact oracle
     ck.harness_build(["evalsrv"])
-    n = 1500 if ck.tier == "quick" else 40000
-    cases = list(CORPUS) + gen_cases(ck, n)
+    n = 1200 if ck.tier == "quick" else 40000
+    sweep = sweep_cases()
+    cases = list(CORPUS) + sweep + gen_cases(ck, n)
+    ck.cov["boundary_sweep_cases"] = len(sweep)
     shapes_for = []
     units = [PRELUDE]
     index = []
     for ci, (op, xs) in enumerate(cases):
-        shapes = SHAPES if (ck.tier == "thorough" or ci < len(CORPUS)) else [ck.rng.choice(SHAPES), "apply"]
+        in_sweep = len(CORPUS) <= ci < len(CORPUS) + len(sweep)
+        shapes = SHAPES if (ck.tier == "thorough" or ci < len(CORPUS)) else \
+            (["apply", ("local", "literal", "tail")[ci % 3]] if in_sweep else [ck.rng.choice(SHAPES), "apply"])
         for sh in dict.fromkeys(shapes):
             units.append(source(op, xs, sh))
             index.append((ci, sh))
@@ -318,7 +489,8 @@ def run(ck):
             if any(canon_rep(x)[0] != "I" or abs(x) > 2**31 for x in xs):
                 nontrivial.add(key)
         case = {"op": op, "args": [lit(x) for x in xs], "shape": sh, "source": source(op, xs, sh),
-                "impl": g, "model": mod, "exact": want}
+                "impl": g, "model": mod, "exact": want,
+                "operands_py": [["f", x.hex()] if isinstance(x, float) else ["q", str(x)] for x in xs]}
         if ci % 97 == 0:
             ck.sample(case)
         if g != want:
@@ -331,6 +503,11 @@ def run(ck):
             # mirrors the code; the theorems are about something else
             ck.violation("model/implementation correspondence broken on %s %s: model %s, engine %s" % (op, case["args"], mod, g),
                          {"case": case, "correspondence": "c10.Model_C10 vs numbers.rs"}, no_input=True, tag="corr")
+    # the literal -0.0 (its own probe: operands elsewhere build negative zero with (- 0.0))
+    z = run_impl(ck, [PRELUDE, "-0.0"])
+    if impl_str(z[1]) != "F8000000000000000":
+        ck.failing_input("the literal -0.0 evaluates to %s" % impl_str(z[1]),
+                         {"op": "literal", "args": ["-0.0"], "impl": impl_str(z[1]), "exact": "F8000000000000000"}, tag="arith")
     ck.cov["distinct_nontrivial"] = len(nontrivial)
     ck.cov["rule"] = ("operand tuples from a boundary lattice (i32/i64/isize limits +-2, 2^62..2^64, 10^30, random 40-128 bit) "
                       "and rationals built from it; each evaluated through syntactic shapes %s; distinct = distinct "
